@@ -218,3 +218,231 @@ Corollary c256_transform_spec st block :
   length st = 8%nat -> length block = 64%nat ->
   c256_transform K256 st block = f256_compress st block.
 Proof. intros. unfold f256_compress. apply c256_transform_eq_compress; assumption. Qed.
+
+(* ================= Part 2: streaming ================= *)
+From LCP Require Import Alg.MDStreaming.
+
+Definition PAD_spec : list N := 128 :: repeat 0 63.
+
+Lemma f256_compress_length st block : length st = 8%nat -> length (f256_compress st block) = 8%nat.
+Proof.
+  intros H. unfold f256_compress. rewrite map2_length.
+  assert (forall n i v, length v = 8%nat ->
+            length (fold_left (fun v t => f256_round v (nth t K256 0) (nth t (f256_schedule block) 0)) (seq i n) v) = 8%nat) as HL.
+  { induction n as [|n IH]; intros i v Hv; cbn [seq fold_left]; [exact Hv|].
+    apply IH, f256_round_length, Hv. }
+  rewrite HL by exact H. rewrite H. reflexivity.
+Qed.
+
+Lemma chunks_all64 k : forall l, (64 * k <= length l)%nat -> Forall (fun b => length b = 64%nat) (chunks k l).
+Proof.
+  induction k as [|k IH]; intros l H; cbn [chunks]; constructor.
+  - rewrite firstn_length. lia.
+  - apply IH. rewrite skipn_length. lia.
+Qed.
+Lemma blocks_all64 l : Forall (fun b => length b = 64%nat) (blocks l).
+Proof. unfold blocks. apply chunks_all64. lia. Qed.
+
+Lemma fold_transform_eq bs : forall st, length st = 8%nat -> Forall (fun b => length b = 64%nat) bs ->
+  fold_left (c256_transform K256) bs st = fold_left f256_compress bs st.
+Proof.
+  induction bs as [|b bs IH]; intros st Hst Hbs; [reflexivity|].
+  inversion Hbs as [|? ? Hb Hr]; subst. cbn [fold_left].
+  rewrite c256_transform_spec by assumption.
+  apply IH; [apply f256_compress_length; exact Hst | exact Hr].
+Qed.
+
+Lemma buf_write_at buf a X P : firstn a buf = X ->
+  buf_write buf a P = X ++ P ++ skipn (a + length P) buf.
+Proof. intros H. unfold buf_write. rewrite H. reflexivity. Qed.
+
+Lemma firstn_PAD k : (k <= 63)%nat -> firstn (S k) PAD_spec = 128 :: repeat 0 k.
+Proof. intros H. unfold PAD_spec. cbn [firstn]. f_equal. apply firstn_repeat. exact H. Qed.
+
+Section Streaming.
+  Variable st0 : list N.                     (* chaining value the stream starts from *)
+  Variable base : N.                         (* bits absorbed before it (a multiple of 512) *)
+  Hypothesis Hbase : base mod 512 = 0.
+  Let T := c256_transform K256.
+  Let upd_ := c256_update K256 64 3 63.
+  Let pad_ := c256_pad K256 PAD_spec 56 64 3 63.
+
+  Definition cinv256 (c : ctx256) (m : list N) : Prop :=
+    Inv T st0 (c256_state c) (c256_buf c) m /\
+    c256_count c = (base + 8 * N.of_nat (length m)) mod M64.
+
+  Lemma cinv256_r c m : cinv256 c m -> c256_r 3 63 c = (length m mod 64)%nat.
+  Proof.
+    intros [_ Hc]. unfold c256_r. rewrite Hc, residue_of_count_base by exact Hbase. lia.
+  Qed.
+
+  (* M2 for SHA256_Update_internal *)
+  Lemma c256_update_inv c m d : cinv256 c m -> cinv256 (upd_ c d) (m ++ d).
+  Proof.
+    intros H. unfold upd_, c256_update.
+    destruct (N.eqb_spec (N.of_nat (length d)) 0) as [Hz|Hnz].
+    - destruct d; [|simpl in Hz; lia]. rewrite app_nil_r. exact H.
+    - rewrite (cinv256_r c m H). change (N.to_nat 64) with 64%nat.
+      destruct H as [HI Hc].
+      pose proof (update_body_inv T st0 _ _ _ d HI) as HU.
+      fold T.
+      destruct (update_body T 64 (c256_state c) (c256_buf c) (length m mod 64) d) as [st bf].
+      cbn [fst snd] in HU. split; cbn [c256_state c256_buf c256_count]; [exact HU|].
+      rewrite Hc, count_step_base, app_length. f_equal. lia.
+  Qed.
+
+  Lemma c256_updates_inv parts : forall c m, cinv256 c m ->
+    cinv256 (fold_left upd_ parts c) (m ++ concat parts).
+  Proof.
+    induction parts as [|p ps IH]; intros c m H; cbn [fold_left concat].
+    - rewrite app_nil_r. exact H.
+    - rewrite app_assoc. apply IH. apply c256_update_inv. exact H.
+  Qed.
+
+  (* SHA256_Pad leaves the state the standard prescribes for the padded stream *)
+  Lemma c256_pad_state c m : cinv256 c m ->
+    c256_state (pad_ c) = fold_left T (blocks (md_pad_from be64enc base m)) st0.
+  Proof.
+    intros H. pose proof (cinv256_r c m H) as Hr. destruct H as [HI Hc].
+    apply Inv_residue in HI. destruct HI as (F & R & Hm & [q HF] & HR & Hst & Hb & HbR).
+    unfold pad_, c256_pad. rewrite Hr, <- HR.
+    change (N.to_nat 56) with 56%nat. change (N.to_nat 64) with 64%nat.
+    assert (HR64 : (length R < 64)%nat) by lia.
+    unfold md_pad_from. unfold M64 in Hc. rewrite <- Hc.
+    replace (md_zeros (length m)) with ((119 - length R) mod 64)%nat by (unfold md_zeros; rewrite HR; reflexivity).
+    set (enc := be64enc (c256_count c)).
+    assert (Henc : length enc = 8%nat) by reflexivity.
+    subst m.
+    destruct (Nat.ltb_spec (length R) 56) as [Hlt|Hge].
+    - (* one final block *)
+      cbn [c256_state].
+      replace (56 - length R)%nat with (S (55 - length R)) by lia.
+      rewrite firstn_PAD by lia.
+      set (P := 128 :: repeat 0 (55 - length R)).
+      assert (HP : length P = (56 - length R)%nat) by (unfold P; cbn [length]; rewrite repeat_length; lia).
+      rewrite (buf_write_at _ _ R P HbR).
+      assert (Hf : firstn 56 (R ++ P ++ skipn (length R + length P) (c256_buf c)) = R ++ P).
+      { rewrite app_assoc, firstn_app, firstn_all2 by (rewrite app_length; lia).
+        rewrite app_length. replace (56 - (length R + length P))%nat with 0%nat by lia.
+        cbn [firstn]. apply app_nil_r. }
+      rewrite (buf_write_at _ 56 (R ++ P) enc Hf).
+      rewrite skipn_all2 by (rewrite !app_length, skipn_length; lia).
+      rewrite app_nil_r.
+      replace ((119 - length R) mod 64)%nat with (55 - length R)%nat by lia.
+      rewrite <- (app_assoc F R).
+      rewrite (blocks_app F _ q HF), fold_left_app, <- Hst.
+      change ([128] ++ repeat 0 (55 - length R) ++ enc) with (P ++ enc).
+      rewrite blocks_one by (rewrite !app_length; lia).
+      rewrite <- (app_assoc R P enc). reflexivity.
+    - (* the residue does not leave room for the length: two blocks *)
+      cbn [c256_state].
+      replace (64 - length R)%nat with (S (63 - length R)) by lia.
+      rewrite firstn_PAD by lia.
+      set (P := 128 :: repeat 0 (63 - length R)).
+      assert (HP : length P = (64 - length R)%nat) by (unfold P; cbn [length]; rewrite repeat_length; lia).
+      rewrite (buf_write_at _ _ R P HbR).
+      rewrite skipn_all2 by lia. rewrite app_nil_r.
+      assert (HRP : length (R ++ P) = 64%nat) by (rewrite app_length; lia).
+      unfold buf_write at 2. cbn [firstn app Nat.add]. rewrite repeat_length.
+      assert (Hf : firstn 56 (repeat 0 56 ++ skipn 56 (R ++ P)) = repeat 0 56).
+      { rewrite firstn_app, repeat_length, Nat.sub_diag. rewrite firstn_O, app_nil_r.
+        apply firstn_all2. rewrite repeat_length. lia. }
+      rewrite (buf_write_at _ 56 (repeat 0 56) enc Hf).
+      rewrite skipn_all2 by (rewrite app_length, repeat_length, skipn_length; lia).
+      rewrite app_nil_r.
+      replace ((119 - length R) mod 64)%nat with ((63 - length R) + 56)%nat by lia.
+      rewrite repeat_app_plus.
+      rewrite <- (app_assoc F R).
+      rewrite (blocks_app F _ q HF), fold_left_app, <- Hst.
+      replace (R ++ 128 :: (repeat 0 (63 - length R) ++ repeat 0 56) ++ enc)
+        with ((R ++ P) ++ (repeat 0 56 ++ enc))
+        by (unfold P; rewrite <- !app_assoc; cbn [app]; reflexivity).
+      rewrite (blocks_app (R ++ P) _ 1) by lia.
+      rewrite fold_left_app, (blocks_one (R ++ P)) by exact HRP.
+      rewrite blocks_one by (rewrite app_length, repeat_length; lia).
+      reflexivity.
+  Qed.
+End Streaming.
+
+(* ================= Part 3: the theorems, for the model with the standard's constants ================= *)
+Definition upd256 := c256_update K256 64 3 63.
+Definition fin256_internal := c256_final_internal K256 PAD_spec 56 64 3 63.
+Definition fin256 := c256_final K256 PAD_spec 56 64 3 63.
+Definition init256 := c256_init H0_256.
+Definition buf256 := c256_buf_oneshot K256 H0_256 PAD_spec 56 64 3 63.
+
+(* a context as SHA256_Update can leave it: 8 state words, 64 buffer bytes, whole bytes counted *)
+Definition wf256 (c : ctx256) : Prop :=
+  length (c256_state c) = 8%nat /\ length (c256_buf c) = 64%nat /\
+  c256_count c mod 8 = 0 /\ c256_count c < M64.
+
+Definition SHA256_resume (st : list N) (bits : N) (buf d : list N) : list N :=
+  be32enc_vect (md_resume f256_compress be64enc st bits buf d).
+
+(* Streaming from ANY well-formed context: the digest is the standard's padding and compression
+   continued from that chaining value, bit count and pending residue. *)
+Theorem sha256_resume_correct c parts : wf256 c ->
+  fst (fin256_internal (fold_left upd256 parts c)) =
+  SHA256_resume (c256_state c) (c256_count c) (c256_buf c) (concat parts).
+Proof.
+  intros (Hst & Hbuf & Hc8 & Hc64).
+  set (r := N.to_nat ((c256_count c / 8) mod 64)).
+  set (base := c256_count c - 8 * N.of_nat r).
+  assert (Hr : (r < 64)%nat) by (unfold r; lia).
+  assert (Hbase : base mod 512 = 0) by (unfold base, r; lia).
+  assert (HR : length (firstn r (c256_buf c)) = r) by (rewrite firstn_length; lia).
+  assert (H0 : cinv256 (c256_state c) base c (firstn r (c256_buf c))).
+  { split.
+    - exists [], (firstn r (c256_buf c)). rewrite HR. repeat split; auto.
+      exists 0%nat. reflexivity.
+    - rewrite HR. unfold base, r, M64 in *. lia. }
+  pose proof (c256_updates_inv _ _ Hbase parts c _ H0) as H1.
+  pose proof (c256_pad_state _ _ Hbase _ _ H1) as H2.
+  unfold fin256_internal, c256_final_internal, upd256. cbn [fst].
+  rewrite H2. unfold SHA256_resume, md_resume. fold r. fold base. f_equal.
+  apply fold_transform_eq; [exact Hst | apply blocks_all64].
+Qed.
+
+Lemma wf256_init : wf256 init256.
+Proof. repeat split; try reflexivity. Qed.
+
+(* M3 *)
+Theorem sha256_streaming_correct_all parts :
+  fst (fin256 (fold_left upd256 parts init256)) = SHA256_spec (concat parts).
+Proof.
+  unfold fin256, c256_final. cbn [fst]. fold fin256_internal.
+  rewrite sha256_resume_correct by apply wf256_init. reflexivity.
+Qed.
+
+Theorem sha256_streaming_correct parts :
+  8 * N.of_nat (length (concat parts)) < 18446744073709551616 ->
+  fst (fin256 (fold_left upd256 parts init256)) = SHA256_spec (concat parts).
+Proof. intros _. apply sha256_streaming_correct_all. Qed.
+
+Theorem sha256_internal_streaming_correct parts :
+  fst (fin256_internal (fold_left upd256 parts init256)) = SHA256_spec (concat parts).
+Proof. rewrite sha256_resume_correct by apply wf256_init. reflexivity. Qed.
+
+Theorem sha256_oneshot_correct m : buf256 m = SHA256_spec m.
+Proof.
+  unfold buf256, c256_buf_oneshot. fold fin256_internal init256.
+  change (c256_update K256 64 3 63 init256 m) with (fold_left upd256 [m] init256).
+  rewrite sha256_internal_streaming_correct. cbn [concat]. rewrite app_nil_r. reflexivity.
+Qed.
+
+Corollary sha256_oneshot_eq_streaming parts :
+  buf256 (concat parts) = fst (fin256 (fold_left upd256 parts init256)).
+Proof. rewrite sha256_oneshot_correct, sha256_streaming_correct_all. reflexivity. Qed.
+
+(* C20-M1: SHA256_Final returns the wiped context *)
+Theorem sha256_final_zeroes_ctx c : c256_is_zero (snd (fin256 c)) = true.
+Proof. reflexivity. Qed.
+
+Lemma SHA256_spec_length m : length (SHA256_spec m) = 32%nat.
+Proof.
+  unfold SHA256_spec, md_hash. rewrite be32enc_vect_length.
+  assert (forall bs st, length st = 8%nat -> length (fold_left f256_compress bs st) = 8%nat) as H.
+  { induction bs as [|b bs IH]; intros st Hst; [exact Hst|]. cbn [fold_left].
+    apply IH, f256_compress_length, Hst. }
+  rewrite H by reflexivity. reflexivity.
+Qed.
